@@ -41,14 +41,14 @@ def pickSlot (v : Svc) (cookies : List Bytes) : Slot :=
   | some _, some sp => if requestUsesRollout sp cookies then .rollout else .active
   | _, _ => .active
 
+def idxOf (s : State) (n : Bytes) (sl : Slot) : Nat :=
+  ((s.idx.find? (·.1 = (n, sl))).map (·.2)).getD 0
+
 /-- `claimTarget` on a load balancer whose targets are all healthy: advance, then pick -/
-def claim (s : State) (id : Nat) : State × Option Bytes :=
-  match s.lbs.find? (·.id = id) with
-  | none => (s, none)
-  | some l =>
-    if l.targets.isEmpty then (s, none) else
-    let i := (l.idx + 1) % l.targets.length
-    ({ s with lbs := s.lbs.map fun x => if x.id = id then { x with idx := i } else x }, l.targets[i]?)
+def claim (s : State) (n : Bytes) (sl : Slot) (targets : List Bytes) : State × Option Bytes :=
+  if targets.isEmpty then (s, none) else
+  let i := (idxOf s n sl + 1) % targets.length
+  ({ s with idx := ((n, sl), i) :: s.idx.filter (·.1 ≠ (n, sl)) }, targets[i]?)
 
 def serve (s : State) (r : Req) : State × Outcome :=
   match serviceForRequest (table s) r.hostHdr r.path with
@@ -65,10 +65,10 @@ def serve (s : State) (r : Req) : State × Outcome :=
         | .paused => (s, .held v.pause.failAfter)
         | .running =>
           let slot := pickSlot v r.cookies
-          let id := match slot with
+          let ts := match slot with
             | .active => v.active
             | .rollout => v.rollout.getD v.active
-          match claim s id with
+          match claim s v.name slot ts with
           | (s', some t) =>
             (s', .forwarded v.name t slot
               (if v.opts.stripPrefix && b.pfx ≠ [cSlash] then some b.pfx else none))
